@@ -24,6 +24,11 @@ def do_aug(o, d):
     o.x += d
 
 
+def do_aug_two_lines(o, d):
+    o.x += \
+        d
+
+
 def do_misread(o):
     if o.x <= 10 ** 9: pass
 
